@@ -445,8 +445,17 @@ class vCategory:
     @staticmethod
     def from_ical(ical):
         ical = to_unicode(ical)
-        out = unescape_char(ical).split(',')
-        return out
+        # split on the commas between the items, not on the escaped commas
+        # inside an item, and unescape each item afterwards
+        items = ['']
+        escaped = False
+        for char in ical:
+            if char == ',' and not escaped:
+                items.append('')
+                continue
+            items[-1] += char
+            escaped = char == '\\' and not escaped
+        return [unescape_char(item) for item in items]
 
     def __eq__(self, other):
         """self == other"""
